@@ -3,7 +3,7 @@ C03 (extension) — chunks advertised by the coarse slice pushdown (`Blockwise._
 Model: Model/CoarseSlice.lean; proofs: Lemmas/CoarseSliceChunks.lean, CoarseSliceOvl.lean, CoarseSliceNode.lean.
 ONLY property theorems (restated, one-line proofs) and non-vacuity examples.
 -/
-import DaskArrayModel.Lemmas.CoarseSliceNode
+import DaskArrayModel.Lemmas.CoarseSliceAlign
 namespace Dask.Props.C03Coarse
 open Dask.Py Dask.Py.PySlice Dask.Slicing Dask.Coarse Dask.Lemmas.Coarse
 
@@ -19,7 +19,7 @@ theorem C03c_chunks (n : Node) (oc : List (List Int)) (idx : List Idx) (r : Resu
     (hok : idxsOK oc (fullIndex idx n.outInd.length) = true)
     (hnn : ∀ q ∈ chunkPairs n.ops, ∀ c ∈ q.2, 0 ≤ c) (hnew : slicedNotNew n r.plans) :
     keepsAll n.outInd r.plans n.ops = true ∧ nodeChunks (rewritten n r) = some (keptOut oc r.plans) :=
-  rewritten_chunks_fired n oc idx r hch h hoc hnd hil hok hnn hnew
+  rewritten_chunks_fired n oc idx r hch (acceptCoarse_le n oc idx r h) hoc hnd hil hok hnn hnew
 
 /-- The statement the proof goes through (any plans / operand slices with `keepsAll`, independent of the gate). -/
 theorem C03c_chunks_keeps (n : Node) (oc : List (List Int)) (idx : List Idx) (r : Result)
@@ -28,7 +28,7 @@ theorem C03c_chunks_keeps (n : Node) (oc : List (List Int)) (idx : List Idx) (r 
     (hok : idxsOK oc (fullIndex idx n.outInd.length) = true)
     (hkeep : keepsAll n.outInd r.plans n.ops = true) (hnew : slicedNotNew n r.plans) :
     nodeChunks (rewritten n r) = some (keptOut oc r.plans) :=
-  rewritten_chunks n oc idx r hch h hoc hnd hil hok hkeep hnew
+  rewritten_chunks n oc idx r hch (acceptCoarse_le n oc idx r h) hoc hnd hil hok hkeep hnew
 
 /-- **… and after the top adjustment, the chunks of the sliced original** (`SliceSlicesIntegers.chunks`:
 `normalize_slice` + `new_blockdim` per sliced axis, integer axes dropped), when the OUTPUT chunks are positive
@@ -41,7 +41,7 @@ theorem C03c_chunks_top (n : Node) (oc : List (List Int)) (idx : List Idx) (r : 
     nodeChunks (rewritten n r) = some (keptOut oc r.plans) ∧
     indexedChunks (keptOut oc r.plans) (r.plans.map (·.adj.toIdx))
       = indexedChunks oc (fullIndex idx n.outInd.length) :=
-  rewritten_chunks_top_fired n oc idx r hch h hoc hnd hil hok hnn hnew
+  rewritten_chunks_top_fired n oc idx r hch (acceptCoarse_le n oc idx r h) hoc hnd hil hok hnn hnew
 
 /-- One label: if the label's chunks `base` adjust to `oc` (callable, int, or tuple of the right length), then the kept
 input blocks `first..last` with the kept `adjust_chunks` entry (`val[first : last + 1]` for a tuple, unchanged
